@@ -1,0 +1,62 @@
+// Copyright 2024 The Go Authors. All rights reserved.
+// Use of this source code is governed by a BSD-style
+// license that can be found in the LICENSE file.
+
+//go:build verif
+
+package sumdb
+
+import "sync"
+
+// SimHooks is the table of simulation hooks used by a deterministic
+// scheduler (build tag "verif" only). Every field may be nil, in which
+// case the corresponding hook is a no-op, so a binary built with the tag
+// but without a scheduler behaves like the untagged build.
+//
+//   - Lock is called immediately before each Mutex.Lock in this package.
+//   - OnceEnter/OnceExit bracket Client.initOnce.Do.
+//   - Spawn is called by the parent immediately before a go statement;
+//     the function it returns is called as the first statement of the new
+//     goroutine and returns the function to run when the goroutine ends.
+//   - Wait is called immediately before WaitGroup.Wait.
+var SimHooks struct {
+	Lock      func(mu *sync.Mutex, label string)
+	OnceEnter func(o *sync.Once)
+	OnceExit  func(o *sync.Once)
+	Spawn     func() func() func()
+	Wait      func()
+}
+
+func simLock(mu *sync.Mutex, label string) {
+	if f := SimHooks.Lock; f != nil {
+		f(mu, label)
+	}
+}
+
+func simOnceEnter(o *sync.Once) {
+	if f := SimHooks.OnceEnter; f != nil {
+		f(o)
+	}
+}
+
+func simOnceExit(o *sync.Once) {
+	if f := SimHooks.OnceExit; f != nil {
+		f(o)
+	}
+}
+
+func simWait() {
+	if f := SimHooks.Wait; f != nil {
+		f()
+	}
+}
+
+func simSpawn() func() func() {
+	if f := SimHooks.Spawn; f != nil {
+		return f()
+	}
+	return simNopEnter
+}
+
+func simNopEnter() func() { return simNopExit }
+func simNopExit()         {}
